@@ -227,7 +227,9 @@ def c18_job(jid, row, demand, predicted, rng):
     ov = {"party": x}
     all_ov = None
     if row["own"] != "ok":
-        ov["p_own"] = n if row["own"] == "eq_n" else n + 7
+        ov["p_own"] = n if row["own"].startswith("eq_n") else n + 7
+        if row["own"].endswith("_noinputs"):
+            ov["inputs"] = []
     if row["pe"] != "ok":
         ov["p_eval"] = n if row["pe"] == "eq_n" else 1000
     if row["po"] == "unsorted":
